@@ -1,15 +1,15 @@
 SPECIFICATION Spec
-INVARIANT Emit
 CHECK_DEADLOCK FALSE
+INVARIANTS C01 C02 C03 C04 C05 C06 C07 C08 C09 C10 C11 C12 C13 C14 C15 C19 PermitConservation WaitersOnlyWhenFull
 CONSTANTS
   ActorSeq <- k_ActorSeq
   ClientSeq <- k_ClientSeq
-  CapChoices = {1,2}
-  MaxMsg = 3
-  MaxOps = 5
-  MaxH = 3
-  MaxTime = 3
-  Timeouts = {1,2}
+  CapChoices = {1}
+  MaxMsg = 2
+  MaxOps = 3
+  MaxH = 2
+  MaxTime = 2
+  Timeouts = {1}
   OpKinds = {"tell","ask","tellT","askT","stop","kill"}
   StartOuts = {"ok","err","panic"}
   HandlerOuts = {"ok","panic"}
@@ -17,9 +17,8 @@ CONSTANTS
   StopOuts = {"ok","err","panic"}
   NestKinds = {}
   NestHooks = {}
-  HandleOps = {"clone","drop","down","up","alive","ident"}
+  HandleOps = {"clone","drop","down","up","alive"}
   DeadlockDetection = FALSE
   EdgeClearedOnReply = FALSE
   MetricsOn = FALSE
   MaxRun = 2
-  Depth = 30
